@@ -272,6 +272,11 @@ def positions_rule(ck, F, S, prefix='C12'):
         for pi, (st, _k, v) in enumerate(outs):
             pname = name if len(outs) == 1 else f'{name} [path {pi}: {contracts.render_conds(st.conds, st, {})[:90]}]'
             root = v[1] if v[0] == 'addr' else v
+            if not (isinstance(root, tuple) and root[:1] == ('obj',) and root[1] in st.heap):
+                ck.fail(R_pos, pname + '/position', f'{fid}: answers with `{contracts.render(v, st, {})[:80]}`, a member that was already there, instead of '
+                        'appending one: the member asked for does not exist, and the one handed back has another position (and possibly type)',
+                        loc=f['loc'], fn=fid)
+                continue
             emp = [e for e in st.effects if e[0] == 'emplace']
             acc = contracts.observe(S, F, st, root, {root[1]: 'R'}, accessor_filter=lambda n: n in ('position', 'home_region', 'level'))
             # position: a size observation of the container the element went into, taken before the growth, no offset
